@@ -338,7 +338,7 @@ func TestC12(t *testing.T) {
 	rec.Assume("SELECT-ness ground truth: first keyword of the text (QUERY) or of the text the id was prepared from (EXECUTE); unknown ids and batches are writes",
 		"configuration through proxy.Config (hook VerifConsistencies); spellings/flags/YAML of the same options are C20's business")
 
-	runProp(t, rec, "override", perShard(evid.Pick(3000, 100000)), func(rt *rapid.T) c12Case {
+	runProp(t, rec, "override", perShard(evid.Pick(10000, 400000)), func(rt *rapid.T) c12Case {
 		c := c12Gen(rt)
 		labels := []string{"client:" + protogen.VersionName(primitive.ProtocolVersion(c.Version)), "comp:" + map[bool]string{true: c.Comp, false: "none"}[c.Comp != ""], fmt.Sprintf("listed:%d", len(c.Unsupported))}
 		key := ""
